@@ -222,6 +222,7 @@ type vc08World struct {
 	gate   *vc08Gate
 	totals ledgercore.AccountTotals
 	phase  int // 0 idle, 1 at G1, 2 at G2
+	sparse bool // only a random third of the lookups of a sweep are issued
 	done   chan struct{}
 	ops    []interface{}
 
@@ -477,6 +478,7 @@ type vc08Blocked struct {
 }
 
 func (w *vc08World) sweep(r *vRand, dense bool) (blocked []vc08Blocked) {
+	skip := func() bool { return w.sparse && r.Intn(3) != 0 }
 	R := uint64(w.au.cachedDBRound)
 	lat := uint64(w.au.latest())
 	lo := uint64(0)
@@ -488,6 +490,9 @@ func (w *vc08World) sweep(r *vRand, dense bool) (blocked []vc08Blocked) {
 			continue
 		}
 		for _, a := range w.addrs {
+			if skip() {
+				continue
+			}
 			obs := w.qAcct(rnd, a)
 			w.count(obs)
 			if obs == vSym("retry") {
@@ -497,6 +502,9 @@ func (w *vc08World) sweep(r *vRand, dense bool) (blocked []vc08Blocked) {
 		}
 		for _, a := range w.addrs {
 			for _, c := range w.cidxs {
+				if skip() {
+					continue
+				}
 				obs := w.qRes(rnd, a, c)
 				w.count(obs)
 				if obs == vSym("retry") {
@@ -506,6 +514,9 @@ func (w *vc08World) sweep(r *vRand, dense bool) (blocked []vc08Blocked) {
 			}
 		}
 		for _, k := range w.keys {
+			if skip() {
+				continue
+			}
 			obs := w.qKv(rnd, k)
 			w.count(obs)
 			if obs == vSym("retry") {
@@ -515,6 +526,9 @@ func (w *vc08World) sweep(r *vRand, dense bool) (blocked []vc08Blocked) {
 		}
 		for _, c := range w.cidxs {
 			for ct := uint64(0); ct < 2; ct++ {
+				if skip() {
+					continue
+				}
 				obs := w.qCre(rnd, c, ct)
 				w.count(obs)
 				if obs == vSym("retry") {
@@ -859,6 +873,7 @@ func vc08RunCase(t *testing.T, r *vRand, caseNo int, nops int, out *vOut, stats 
 	defer w.close()
 
 	dense := caseNo%3 == 0
+	w.sparse = caseNo%3 == 2
 	w.dump()
 	w.sweep(r, dense)
 	var pendingReader func()
